@@ -14,7 +14,10 @@ files; what it does fix is that a read "reproduces the same pinset" as the lates
  * `rot_newest`            — the folder listed a snapshot before a clean/successful save ⇒ old.0 reads exactly as the folder
                               read before (the latest pinset, or the same refusal);
  * `rot_backup_complete`   — … and old.0 lists every snapshot the folder listed, damaged ones included (kept for manual recovery);
- * `rot_cleaned`           — after a clean the data folder holds no snapshot.
+ * `rot_cleaned`           — after a clean the data folder holds no snapshot;
+ * `start_serves_latest`   — ("… or starting a peer on it …") a peer STARTED on a folder whose latest snapshot is intact serves that
+                              snapshot's pinset. (Latest damaged: no clause — the statement does not say what a start on damaged
+                              data serves; the model records what the code does, a fall-back to the newest snapshot that opens.)
 Core Lean only.
 -/
 namespace CV.C14.Damage
@@ -34,7 +37,7 @@ inductive SRead where
   deriving DecidableEq, Repr
 
 inductive DOp where
-  | read | clean | save (c : Nat)
+  | read | clean | save (c : Nat) | boot
   deriving DecidableEq, Repr
 
 structure DObs where
@@ -44,6 +47,7 @@ structure DObs where
   cnt : Nat
   old0cnt : Nat
   failed : Bool
+  start : SRead := .absent
   deriving Repr
 
 def damageClauses (absent : Bool) (l : DIn) (op : DOp) (o : DObs) : List (String × Bool) :=
@@ -57,12 +61,16 @@ def damageClauses (absent : Bool) (l : DIn) (op : DOp) (o : DObs) : List (String
   [("offline_never_stale", okPre)] ++
   (match op with
    | .read => []
+   | .boot => (match lat with
+     | some s => if s.2.2.2 then [] else [("start_serves_latest", o.start == .pins s.2.2.1)]
+     | none => [])
    | .save c =>
      if o.failed then [("save_refused_keeps", damagedLatest && o.off == o.pre && o.cnt == l.length && o.old0 == .absent)]
      else [("snapshot_offline_id", o.off == .pins c)]
    | .clean => [("rot_cleaned", o.off == .absent || o.off == .nosnap)]) ++
   (match op, lat with
    | .read, _ => []
+   | .boot, _ => []
    | _, some _ => if o.failed then [] else [("rot_newest", o.old0 == o.pre), ("rot_backup_complete", o.old0cnt == l.length)]
    | _, none => [])
 
